@@ -251,6 +251,10 @@ def gen_scenario(rng, prof=None, force_selflock=None):
     spec['rules'] = []
     spec['stop'] = None
     sched = [{'op': 'run', 'dt': dt, 'T': mulq(dt, n)}]
+    if rng.random() < p.get('p_nonmultiple_T', 0.0):
+        # a duration that is not a whole multiple of the step (legal; the grid properties C11/C12 do not use it)
+        from decimal import Decimal
+        sched[0]['T'] = Q(dt['k'], float(Decimal(repr(dt['v'])) * n + Decimal(repr(dt['v'])) * Decimal(rng.choice(['0.5', '0.25', '0.7']))), dt['u'])
     if rng.random() < p['p_continue']:
         u2 = rng.choice(time_units_for(dt_si))
         same = rng.random() < 0.5
